@@ -44,7 +44,7 @@ NOT_APPLICABLE = {
 }
 
 # /repo commits that add guarded hooks (cfg log4rs_verif)
-HOOK_COMMITS = []
+HOOK_COMMITS = ['5a2703e', '057fc64', '8991438', 'db83ae1', 'e6cb540', '32ad153', 'e8650e2', '576c8c7', '543b0d5', '0f2b23c', '0e5799d', '5cc9e68', '86dd40b', '7b40c7c']
 
 PROPS["C03"] = dict(
     functions=[
@@ -672,3 +672,52 @@ PROPS["C08"] = dict(
         H("c08_faults::fault_appender_post_known", kind="finding", instance="appender, post-processing policy, truncate mode (class of the recorded finding)", symbolic="record lengths", bound="unwind 10", **_f),
     ],
 )
+
+
+# ------------------------------------------------------------------------------------------
+# What is claimed.  Harness groups that the solver could not finish within the caps are kept in
+# the harness crate (and below, under PENDING) for the record, but are not part of any check.
+PENDING = {}
+for _pid in ["C04", "C05", "C19", "C09", "C10", "C12", "C15", "C08"]:
+    PENDING[_pid] = PROPS.pop(_pid)
+
+# C06 / C17: only the trigger units fit; the appender-level harnesses (c05_rolling::*) did not
+PROPS["C06"]["harnesses"] = [h for h in PROPS["C06"]["harnesses"] if h["name"].startswith("c06_triggers::")]
+PROPS["C06"]["harnesses"].append(H("c06_triggers::compound_policy", instance="CompoundPolicy::process: the trigger is consulted once, the roller runs exactly when it says so, errors are returned", symbolic="trigger answer (no/yes/error), roller failure, pre flag", bound="unwind 6", timeout=900, mem_gb=8))
+PROPS["C06"]["functions"] = ["SizeTrigger::{new,trigger,is_pre_process}", "CompoundPolicy::{process,is_pre_process}", "LogFile::len_estimate"]
+PROPS["C06"]["bounds"] = "trigger unit: all limits and sizes in u64; policy unit: every combination of trigger answer, roller failure and pre-processing flag"
+PROPS["C06"]["outside"] = ("the appender half of the statement - that LogFile::len_estimate() equals the true on-disk size at every consultation, and the "
+                           "rotation history of a running appender: RollingFileAppender::append over the file model did not fit the solver (20 min / 9-12 GB for "
+                           "a single append, with the real and with a modelled BufWriter; DESIGN.md section 9.6)")
+PROPS["C06"]["assumptions"] = ["hook verif_with_log_file builds a LogFile of a given length", "Backtrace::capture -> disabled; <anyhow::Error as Drop>::drop -> no-op"]
+PROPS["C06"]["level_text"] = ("Bounded model checking of the decision function: for every limit and every size shown to it the size trigger asks for a roll exactly "
+                              "when size > limit, and it is a post-processing trigger; the compound policy consults the trigger exactly once per append, runs the "
+                              "roller exactly when asked, and returns their errors.")
+PROPS["C06"]["level_note"] = "Trusted: Kani/CBMC/CaDiCaL. Only the decision half of C06 is decided; size accounting inside the appender is not (see outside)."
+
+PROPS["C17"]["harnesses"] = [h for h in PROPS["C17"]["harnesses"] if h["name"].startswith("c06_triggers::")]
+PROPS["C17"]["functions"] = ["OnStartUpTrigger::{new,trigger,is_pre_process}"]
+PROPS["C17"]["bounds"] = "min_size and the sizes seen at three successive consultations: all of u64"
+PROPS["C17"]["outside"] = ("the appender half (pre-existing content becomes the newest archive, first record starts a fresh file) and simultaneous first appends "
+                           "from several threads: the appender did not fit the solver (DESIGN.md section 9.6); std::sync::Once is trusted")
+PROPS["C17"]["assumptions"] = ["hook verif_with_log_file builds a LogFile of a given length"]
+PROPS["C17"]["level_text"] = ("Bounded model checking of the trigger over all of u64: it answers true at most once in its lifetime, only at its first consultation, "
+                              "and exactly when the size seen then is at least min_size; it is a pre-processing trigger.")
+PROPS["C17"]["level_note"] = "Trusted: Kani/CBMC/CaDiCaL, std::sync::Once."
+
+# C11: construction-level harnesses (measured); the encode-level ones wait for the pattern-encoder measurements
+PROPS["C11"]["harnesses"] = [h for h in PROPS["C11"]["harnesses"] if h["name"].split("::")[1] in
+                             ("width_20_digits", "width_20_digits_witness", "maxwidth_22_digits")]
+PROPS["C11"]["bounds"] = "PatternEncoder::new on the 20- and 22-digit width skeletons ({m:18446744073709551619}, {m:.9999999999999999999999}): construction only"
+PROPS["C11"]["outside"] = "encoding, every other pattern (free pattern text and even one free character did not finish), date directives (fixed finding, native twin only)"
+
+NOT_APPLICABLE.update({
+    "C04": "RollingFileAppender/FileAppender::append over a file model did not fit CBMC: a single append ran 20 min of symbolic execution and 8-12 GB with std's BufWriter and also with a small array-backed BufWriter model under the guard (heap-resident lengths, io::Error drop fan-out); no meaningful smaller unit of C04 exists (DESIGN.md 9.6)",
+    "C05": "same measurement as C04: the appender's append path is out of reach; the pieces that fit are claimed elsewhere (rollers: C07, trigger/policy units: C06, C17); the stream law of C05 itself is not decided",
+    "C09": "PatternEncoder::encode keeps its chunks in a Vec<Chunk>: heap-stored enum tags are undecided for the symbolic executor, so every element explores every formatter with its writers; the smallest pattern harness ({l} {m} ..) was still in symbolic execution after 15 min / 4 GB (DESIGN.md 9.6)",
+    "C10": "see evidence of the last measurement in DESIGN.md 9.6: the width writers recurse through &mut dyn encode::Write; with the chunk list on the heap the run exhausted 9 GB in symbolic execution; the stack-built variant is recorded there",
+    "C12": "JsonEncoder::encode_inner (serde_json + chrono formatting + fmt machinery over heap buffers) was still in symbolic execution after 15 min / 4 GB for a 1-unit message (DESIGN.md 9.6)",
+    "C15": "the public path Config::builder -> Logger::new_with_err_handler -> log with the ArcSwap model: see DESIGN.md 9.6 for the measurement; the reloader half needs serde_yaml + threads",
+    "C19": "expand_env_vars builds Strings on the heap; every copy has a solver-side symbolic size: 20 s of symbolic execution, then > 12 GB in the SSA-to-SAT conversion for the 12-byte path '/a/$ENV{A}/b' (DESIGN.md 9.6); the defect found by the native twin is fixed",
+    "C08": "pending measurement of the roller-level harness (DESIGN.md 9.6)",
+})
